@@ -9,6 +9,13 @@ for _f in sorted(os.listdir(os.path.join(ROOT, "checks"))):
 props = [json.loads(l) for l in open(os.path.join(ROOT, "properties.jsonl"))]
 na_reasons = json.load(open(os.path.join(ROOT, "not_applicable.json"))) if os.path.exists(os.path.join(ROOT, "not_applicable.json")) else {}
 hook_commits = subprocess.run("git -C /repo log --format=%H --grep='^verif hooks'", shell=True, stdout=subprocess.PIPE).stdout.decode().split()
+def ready(pid):
+    """claimed only when the last run of the check in this tree passed (evidence with 0 violations)"""
+    ev = os.path.join(ROOT, "evidence", pid + ".json")
+    try:
+        return json.load(open(ev)).get("violations", 1) == 0
+    except Exception:
+        return False
 m = {
  "version": 1,
  "setup_cmd": "./check --setup",
@@ -20,16 +27,17 @@ m = {
   "add_only": True,
  },
  "engines": [
-  {"name": "coq-model-and-proofs", "path": "coq/", "serves_properties": sorted(checks), "kind_free_text": "Gallina models (coq/Model), lemmas (coq/Proofs), pinned property theorems (coq/Props), Coq 8.16.1 full .vo build"},
-  {"name": "correspondence-harness", "path": "harness/", "serves_properties": sorted(checks), "kind_free_text": "Rust crate with a path dependency on /repo/quil-rs; generates cases, runs the implementation, emits Coq case shards in which the model and the verified instance checker are evaluated by vm_compute"},
+  {"name": "coq-model-and-proofs", "path": "coq/", "serves_properties": sorted(c for c in checks if ready(c)), "kind_free_text": "Gallina models (coq/Model), lemmas (coq/Proofs), pinned property theorems (coq/Props), Coq 8.16.1 full .vo build"},
+  {"name": "correspondence-harness", "path": "harness/", "serves_properties": sorted(c for c in checks if ready(c)), "kind_free_text": "Rust crate with a path dependency on /repo/quil-rs; generates cases, runs the implementation, emits Coq case shards in which the model and the verified instance checker are evaluated by vm_compute"},
  ],
  "checks": [],
  "notes": "See DESIGN.md. Every check = machine-checked theorems about a Gallina model + a correspondence run tying the model to /repo's current working tree.",
  "not_applicable": [],
 }
+
 for p in props:
     pid = p["id"]
-    if pid in checks:
+    if pid in checks and ready(pid):
         c = checks[pid]
         m["checks"].append({
             "property_id": pid,
